@@ -522,11 +522,29 @@ func (env *Env) elabIdent(name string) Term {
 			return t
 		}
 	}
+	if env.vc != nil && env.vc.fc != nil && env.curHeap() != nil {
+		for _, gv := range env.vc.fc.GhostVars {
+			if gv.Name == name {
+				comp, sort, es := ghostComp(gv)
+				return Term{S: fmt.Sprintf("(select %s 0)", env.curHeap()(comp, sort)), Sort: es}
+			}
+		}
+	}
 	if env.pkg != nil {
 		return env.elabPkgMember(env.pkg, name)
 	}
 	efail("unknown identifier %s", name)
 	return Term{}
+}
+
+// ghostComp: heap component holding a ghost variable (at index 0), so that control-flow
+// merges and loop havoc treat it like any other state.
+func ghostComp(gv *GhostVar) (comp, sort, elemSort string) {
+	es := "Int"
+	if gv.Type == "bool" {
+		es = "Bool"
+	}
+	return "GV$" + gv.Name, "(Array Int " + es + ")", es
 }
 
 func (env *Env) elabPkgMember(p *types.Package, name string) Term {
